@@ -58,6 +58,15 @@ P = {
                   "on the real updates package (as a transaction does) on four column type groups and TLC validates ForEachModelUpdate / ForEachRowUpdate / GetModel.",
              note="Trusted: TLC, harness value instantiation; binding self-test in every shard. delete followed by re-insert is outside the model.",
              tech="TLC model checking of Merge.tla + enumerate-and-replay + TLC trace validation"),
+ "C16": dict(engine="tla-session", cat="model_checking", ref="6 C16",
+             text="Reconn.tla models loss of the connection at any point, reconnection, sequential restart of the monitors with the purge rule, and "
+                  "commits by other clients meanwhile; TLC checks Resynchronised on every interleaving for 1 and 2 monitors and refutes the pinned purge rule; "
+                  "TLC-enumerated fault scenarios run on a real client with the reconnect option behind a message-boundary aware fault-injecting proxy "
+                  "(cut after / inside the k-th message of a direction, in steady state and again while reconnecting; silent peer + inactivity probe; "
+                  "transactions by others while away; Transact calls in flight) and TraceTxn.tla judges convergence of the cache and the "
+                  "exactly-once / at-most-once outcome of every marked Transact call.",
+             note="Trusted: TLC, the proxy; convergence is awaited for 15 s. Leader-only endpoint selection is not exercised yet (see DESIGN.md).",
+             tech="TLC model checking of Reconn.tla + fault-injection replay of enumerated scenarios + TLC trace validation"),
  "C17": dict(engine="tla-txn", cat="model_checking", ref="6 C17",
              text="Server.tla models the transact handler as a lock protocol (lock, execute, notify, commit, reply) and TLC checks no lost increment, one "
                   "winner and notification order = commit order, refuting the nolock and commitAfterUnlock variants; concurrent raw clients run contended "
